@@ -391,7 +391,8 @@ func (fc *fileCtx) call(call *ast.CallExpr) {
 
 	switch typ {
 	case "Mutex", "RWMutex":
-		fn := map[string]string{"Lock": "MuLock", "Unlock": "MuUnlock", "RLock": "MuRLock", "RUnlock": "MuRUnlock"}[name]
+		fn := map[string]string{"Lock": "MuLock", "Unlock": "MuUnlock", "RLock": "MuRLock", "RUnlock": "MuRUnlock",
+			"TryLock": "MuTryLock", "TryRLock": "MuTryRLock"}[name]
 		if fn == "" {
 			fatalf("%s: sync.%s.%s is not modelled by the simulator", fc.label(call.Pos()), typ, name)
 
